@@ -748,6 +748,18 @@ def b_round(interp, args, kwargs, node):
     else:
         p = args[1]
     if node is not None and len(getattr(node, 'args', [])) > 1 and is_internal_precision(node):
+        if interp.__dict__.get('round_mode') == 'error' and not isinstance(x, (list, dict, str)):
+            # rounding-placement mode (contracts/rounding_placement.py): the result is SOME number within half a unit of
+            # the last internal digit of x — where the library rounds then matters, as it does in IEEE arithmetic
+            ip = interp.cfg.data.get('internal_precision', 10)
+            half = Fraction(1, 2 * 10 ** ip)
+            if is_conc_num(x):
+                return round(Fraction(x), ip) if not isinstance(x, float) else x
+            if is_symnum(x):
+                r = fresh('rd', RS)
+                xr = real(x)
+                interp.assume(z3.And(r - xr <= Q(half), xr - r <= Q(half), z3.Implies(xr >= 0, r >= 0), z3.Implies(xr <= 0, r <= 0)))
+                return r
         return x          # assumption A2: rounding to the internal precision is exact
     from .npmodel import NpArr
     if isinstance(x, NpArr):
